@@ -53,6 +53,11 @@ theorem pinned_counterexample : gatherPinned [2, 1 / 2, 1] (List.map (fun t ↦ 
 /-- it is right when the sorting permutation is an involution (why reversed / sorted inputs hid the defect) -/
 theorem pinned_correct_only_for_involutions : type_of% @PG.gatherPinned_of_involutive := @PG.gatherPinned_of_involutive   -- (printed statement does not re-elaborate; see the source lemma)
 
+/-! ## hand-written part: glue, non-vacuity examples, counterexamples -/
+/-- the statement on a concrete 3-cycle: the repaired scatter returns the values in input order -/
+theorem example_three_cycle : scatterBack [2, 1/2, 1] ((sortRat [2, 1/2, 1]).map fun t => 10 * t) = [20, 5, 10] := by
+  decide +kernel
+
 end PG.C07
 
 #print axioms PG.C07.scatter_argsort
@@ -64,3 +69,4 @@ end PG.C07
 #print axioms PG.C07.sorted
 #print axioms PG.C07.pinned_counterexample
 #print axioms PG.C07.pinned_correct_only_for_involutions
+#print axioms PG.C07.example_three_cycle
